@@ -323,3 +323,22 @@ Print Assumptions C19_wf_call_spelled_out.
 Print Assumptions C19_trading_update_spelled_out.
 Print Assumptions C19_ghost_value_was_validated.
 Print Assumptions C19_family_value_was_validated.
+
+(* =====================================================================================
+   Migrations inside histories.  `minter_migrate` / `o_minter_migrate` (model/MinterMigrate.v)
+   are the minters' `migrate` entry points as functions on the sale-world state; they are
+   not handler operations, so `step` / `ostep` and the theorems above are untouched.  The
+   sale-world correspondence runs migrations inside its histories (SaleCorr.IMigrate /
+   SaleOeCorr.OIMigrate), from stored versions around 3.9.0 and the current version, by the
+   wasm admin and by strangers.
+   ===================================================================================== *)
+From LP Require Import MinterMigrate MinterMigrateProofs.
+
+(* an accepted migration leaves the trading start time (and the mint start time its bound
+   is computed from) as they were *)
+Theorem C19_migrate_keeps_trading_time : forall vr now name_ok stored admin s s',
+  minter_migrate vr now name_ok stored admin s = Ok s' ->
+  s_trading s' = s_trading s /\ s_start s' = s_start s.
+Proof. exact migrate_trading. Qed.
+
+Print Assumptions C19_migrate_keeps_trading_time.
